@@ -1,13 +1,16 @@
 #!/bin/bash
-# evalseed.sh <seed-dir> <property> [tier]: apply the seeded change to /repo, run the property's check, undo.
+# evalseed.sh <seed-dir> <property> [tier]: apply the seeded change to a scratch worktree of /repo's HEAD,
+# run the property's check against it (evidence and replay files go to the seed directory), remove the worktree.
 set -u
 SEED="$1"; PROP="$2"; TIER="${3:-quick}"
-cd /repo || exit 2
-if ! git diff --quiet; then echo "/repo has uncommitted changes"; exit 2; fi
-git apply "$SEED/patch.diff" || { echo "patch does not apply"; exit 2; }
-( cd /verif && ./check "$PROP" --tier "$TIER" ) > "$SEED/check_$PROP.$TIER.log" 2>&1
+WT=/tmp/es_$(basename "$SEED")_$$
+git -C /repo worktree add -q --detach "$WT" HEAD || exit 2
+trap 'git -C /repo worktree remove --force "$WT" 2>/dev/null' EXIT
+git -C "$WT" apply "$SEED/patch.diff" || { echo "patch does not apply"; exit 2; }
+mkdir -p "$SEED/eval"
+( cd /verif && VERIF_REPO="$WT" VERIF_EVAL_DIR="$SEED/eval" ./check "$PROP" --tier "$TIER" ) > "$SEED/check_$PROP.$TIER.log" 2>&1
 rc=$?
-git -C /repo checkout -- .
+rm -rf "$SEED/eval"
 echo "seed $(basename $SEED) property $PROP tier $TIER: exit $rc; $(grep -c '^VIOLATION' $SEED/check_$PROP.$TIER.log) violation lines"
 grep '^VIOLATION' -A1 "$SEED/check_$PROP.$TIER.log" | head -6
 exit 0
